@@ -169,7 +169,7 @@ static void ed_mul_reg_imp(ed_t r, const ed_t p, const bn_t k) {
 		fp_copy_sec(r->x, u->x, bn_is_even(k));
 		fp_copy_sec(r->y, u->y, bn_is_even(k));
 		fp_copy_sec(r->z, u->z, bn_is_even(k));
-#if ED_Afp == EXTND
+#if ED_ADD == EXTND
 		fp_copy_sec(r->t, u->t, bn_is_even(k));
 #endif
 		/* Convert r to affine coordinates. */
